@@ -16,13 +16,15 @@
 (* Rank-deficient designs are kept only where the objective is regularised *)
 (* (penalty > 0); OLS and penalty 0 require full column rank of [X 1].     *)
 (* The product is thinned by a fixed hash (DThin on designs, CThin on      *)
-(* configurations) so that a tier gets a spread sample of the whole        *)
+(* configurations, OThin on the OLS ones) so that a tier gets a spread     *)
+(* sample of the whole                                                     *)
 (* product; float type, calling form and the loose tolerance rotate with   *)
-(* the hash.  Thin = 1 enumerates the full product.                        *)
+(* the hash.  Thin = 1 enumerates the full product.  f32 runs: OLS, and    *)
+(* elastic nets on fast-converging designs (see FastConv).                 *)
 (***************************************************************************)
 EXTENDS LinRegRel, Json
 
-CONSTANTS NS, XV, XOff, YV, PS, TS, XThin1, XThin2, YThin1, YThin2, CThin, F32Mod
+CONSTANTS NS, XV, XOff, YV, PS, TS, XThin1, XThin2, YThin1, YThin2, CThin, OThin, F32Mod
 
 VARIABLE case
 
@@ -54,6 +56,16 @@ WellCond(dirs, n) ==
       prod == IF Len(cols) = 2 THEN g[1][1] * g[2][2] ELSE g[1][1] * g[2][2] * g[3][3]
   IN prod > 0 /\ Det(g) >= (prod + 19) \div 20
 
+\* f32 runs of the coordinate-descent estimators are generated only where the sweep count is tiny: at most two
+\* coordinate blocks (features + intercept) with normalised Gram determinant >= 1/2 (contraction <= 1/2 per
+\* sweep, budget 50).  The residual is updated incrementally, so its rounding error grows with the number of
+\* sweeps; with 50 sweeps it stays far below the f32 allowance of the trace specification.
+FastConv(dirs, n, ic) ==
+  LET cols == IF ic THEN Append(dirs, [i \in 1..n |-> 1]) ELSE dirs
+      g    == Gram(cols)
+  IN  \/ Len(cols) = 1 /\ g[1][1] > 0
+      \/ Len(cols) = 2 /\ g[1][1] * g[2][2] > 0 /\ 2 * Det(g) >= g[1][1] * g[2][2]
+
 Pens  == {<<0, 1>>, <<1, 10>>, <<1, 2>>, <<1, 1>>, <<2, 1>>}
 Rhos  == {<<0, 1>>, <<1, 2>>, <<1, 1>>}
 PenRho == {pr \in Pens \X Rhos : pr[1][1] > 0 \/ pr[2] = <<1, 2>>}     \* penalty 0: the ratio is irrelevant
@@ -74,13 +86,14 @@ Forms == <<"owned", "view", "fview">>
 \* sweep budget "large enough to converge": coordinate descent contracts at a rate set by the conditioning
 MaxIt(kd, wc) == IF wc THEN 3000 ELSE IF kd = "mtl" THEN 40000 ELSE 100000
 
-Mk(kd, xx, ym, pp, rr, ic, h, wc) ==
+Mk(kd, xx, ym, pp, rr, ic, h, wc, fc) ==
+  LET f32 == (h \div (IF kd = "ols" THEN OThin ELSE CThin)) % F32Mod = 0 /\ (kd = "ols" \/ fc) IN
   [kind |-> kd,
    inp |-> [x |-> xx, y |-> ym, p |-> Len(xx[1]), t |-> Len(ym[1]),
             ln |-> pp[1], ld |-> pp[2], rn |-> rr[1], rd |-> rr[2], icpt |-> ic,
-            ft |-> IF wc /\ (h \div 7) % F32Mod = 0 THEN "f32" ELSE "f64",
+            ft |-> IF f32 THEN "f32" ELSE "f64",
             form |-> Forms[((h \div 3) % 3) + 1],
-            maxit |-> MaxIt(kd, wc), te |-> 12,
+            maxit |-> IF f32 THEN 50 ELSE MaxIt(kd, wc), te |-> 12,
             \* a second, loosely converged fit where the stopping rule can fire (l1 part present)
             lte |-> IF kd = "ols" \/ pp[1] = 0 \/ rr[1] = 0 THEN 0 ELSE ((h \div 5) % 3) + 1]]
 
@@ -92,7 +105,8 @@ Init ==
   \E c2 \in (IF p = 1 THEN {<<<<>>, <<>>>>} ELSE Col2Set(cc, c1, d1)) :
   LET xx == [i \in 1..n |-> IF p = 1 THEN <<c1[i]>> ELSE <<c1[i], c2[1][i]>>]
       hx == HashX(xx)
-      wc == WellCond(IF p = 1 THEN <<d1>> ELSE <<d1, c2[2]>>, n)
+      dirs == IF p = 1 THEN <<d1>> ELSE <<d1, c2[2]>>
+      wc == WellCond(dirs, n)
   IN
   /\ hx % (IF p = 1 THEN XThin1 ELSE XThin2) = 0
   /\ \E yy \in AllSeqs(YV, n) :
@@ -103,9 +117,9 @@ Init ==
         \E tn \in (IF kd = "mtl" THEN TS ELSE {1}) :
         LET h == hd \div 2 + 101 * pr[1][1] + 37 * pr[1][2] + 59 * pr[2][1] + 23 * pr[2][2] + (IF ic THEN 3 ELSE 0)
                    + 11 * KindCode(kd) + 5 * tn IN
-        /\ h % CThin = 0
+        /\ h % (IF kd = "ols" THEN OThin ELSE CThin) = 0      \* OLS has 2 configurations per data set, the nets 104
         /\ (kd = "ols" \/ pr[1][1] = 0) => FullRank(xx, ic)
-        /\ case = Mk(kd, xx, Targets(yy, cc, tn, h), pr[1], pr[2], ic, h, wc)
+        /\ case = Mk(kd, xx, Targets(yy, cc, tn, h), pr[1], pr[2], ic, h, wc, FastConv(dirs, n, ic))
 
 Next == UNCHANGED case
 Emit == PrintT("CASE " \o ToJson(case))
